@@ -162,7 +162,7 @@ func c10(r *h.Result, rng *h.Rng, tier string, replay string) error {
 		return err
 	}
 	// … plan_closed_logx / plan_closed_script (C07's extended text tie) and plan_closed_series / plan_closed_values (C13's)
-	if err := c07TextX(r, rng.Fork(), nt); err != nil {
+	if err := c07TextX(r, rng.Fork(), nt, nil); err != nil {
 		return err
 	}
 	if err := c13ModelSeries(r, rng.Fork(), nt); err != nil {
